@@ -285,10 +285,19 @@ pub fn run_check(check: &'static dyn Check, opts: RunOpts) -> i32 {
             m.harness_errors.push(format!("worker ran out of memory at {}", h));
             continue;
         }
-        let sig = match check.hang_signature(stage, kind) {
+        let mut sig = match check.hang_signature(stage, kind) {
             Some(s) => s,
             None => continue,
         };
+        if kind != "hang" && phase != REPLAY_PHASE {
+            let input = match h["tape"].as_str() {
+                Some(t) => Input::Tape(super::tape::unhex(t)),
+                None => Input::Index(index),
+            };
+            if let Some(label) = check.abort_label(tier, phase as usize, &input) {
+                sig = format!("{}@{}", kind, label);
+            }
+        }
         let rendered = if phase == REPLAY_PHASE {
             replay_files.get(index as usize).cloned().unwrap_or_default()
         } else {
